@@ -1643,6 +1643,80 @@ class _Subst:
         return Event(e.kind, self.bb, **d)
 
 
+def _shift_locals(o, off_l):
+    """deep copy of a MIR fragment with every local id moved up by off_l (a place is {"l": int, "p": [..]}, an index projection
+    {"k": "index", "l": int}; the "l" of a binop is an operand, not a local)"""
+    if isinstance(o, dict):
+        return {k: (v + off_l if k == "l" and isinstance(v, int) and not isinstance(v, bool) else _shift_locals(v, off_l)) for k, v in o.items()}
+    if isinstance(o, list):
+        return [_shift_locals(x, off_l) for x in o]
+    return o
+
+
+def _shift_targets(t, off_b):
+    k = t["k"]
+    if k == "goto":
+        t["t"] += off_b
+    elif k == "switch":
+        t["targets"] = [[v, bb + off_b] for v, bb in t["targets"]]
+        t["otherwise"] += off_b
+    elif k in ("call", "assert", "drop"):
+        if t.get("target") is not None:
+            t["target"] += off_b
+
+
+def splice_loop_helpers(fx, f, inline_set):
+    """The function with every call to a *looping* helper that did not exist when the rules were written replaced by the helper's own blocks
+    (classic inlining on the control-flow graph: parameters assigned from the arguments, `return` turned into an assignment of the call's
+    destination and a jump to the call's continuation).  Loop-free helpers are spliced in path by path (PathEval._inline_summary); a helper
+    with a loop has no finite set of paths, but as part of its caller's graph its loop is simply one more loop of the caller, and the rules
+    judge the merged function exactly as if the code had been written in place."""
+    import copy
+    blocks = None
+    for bi, b in enumerate(f["blocks"]):
+        t = b["term"]
+        if t["k"] != "call" or t.get("target") is None or b.get("cleanup"):
+            continue
+        hk = t["func"]["path"] if t["func"]["path"] in fx.fns else norm_path(t["func"]["path"])
+        if hk not in inline_set or hk == f["key"]:
+            continue
+        h = fx.fns.get(hk)
+        if not h or h.get("kind") not in ("Fn", "AssocFn") or not h.get("blocks") or h.get("reachable") or len(t["args"]) != h["arg_count"]:
+            continue
+        if not Body(h).loops:
+            continue
+        if any(hb["term"]["k"] == "call" and (hb["term"]["func"]["path"] in (hk, f["key"]) or norm_path(hb["term"]["func"]["path"]) in (hk, f["key"])) for hb in h["blocks"]):
+            continue        # recursive
+        if blocks is None:
+            f = dict(f)
+            blocks = f["blocks"] = copy.deepcopy(f["blocks"])
+            f["locals"] = list(f["locals"])
+            f["debug"] = list(f["debug"])
+            b = blocks[bi]
+            t = b["term"]
+        off_l, off_b = len(f["locals"]), len(blocks)
+        f["locals"].extend(copy.deepcopy(h["locals"]))
+        for d in h["debug"]:
+            d2 = _shift_locals(d, off_l)
+            d2["arg"] = None
+            f["debug"].append(d2)
+        sp = b.get("tspan") or t.get("fn_span")
+        for i, a in enumerate(t["args"]):
+            b["stmts"].append({"k": "assign", "place": {"l": off_l + 1 + i, "p": [], "ty": h["locals"][1 + i]["ty"]}, "rv": {"k": "use", "op": a}, "span": sp})
+        dest, cont = t["dest"], t["target"]
+        b["term"] = {"k": "goto", "t": off_b}
+        for hb in h["blocks"]:
+            nb = _shift_locals(hb, off_l)
+            if nb["term"]["k"] == "return":
+                nb["stmts"].append({"k": "assign", "place": copy.deepcopy(dest), "rv": {"k": "use", "op": {"k": "move", "place": {"l": off_l, "p": [], "ty": h["locals"][0]["ty"]}}},
+                                    "span": nb.get("tspan") or sp})
+                nb["term"] = {"k": "goto", "t": cont}
+            else:
+                _shift_targets(nb["term"], off_b)
+            blocks.append(nb)
+    return f
+
+
 def body_of(fx, key):
     f = fx.fn(key)
     if f is None:
